@@ -100,8 +100,7 @@ theorem chooseMap_ok (E : Env) (s s1 : PState) (k v : String) (isUser : Bool)
       · cases h
     · rename_i hneq
       injection h with h; injection h with h1 h2; subst h1; subst h2
-      refine ⟨rfl, rfl, fun _ => Or.inr ⟨w, hw, ?_⟩⟩
-      simpa using hneq
+      exact ⟨rfl, rfl, by simp⟩
   · rename_i hnone
     split at h
     · cases h
